@@ -74,7 +74,8 @@ def print_dict_as_table(
     _indent_prefix = indent_char * indent_width * indent_level
 
     _column_heads = list(dct.keys())
-    _column_arrays = list(dct.values())
+    # format copies: the columns may be (views of) arrays held by the fit
+    _column_arrays = [_col.copy() if isinstance(_col, np.ndarray) else list(_col) for _col in dct.values()]
 
     # apply formatting to (numeric) cell contents
     for _icol, _col in enumerate(_column_arrays):
